@@ -91,9 +91,32 @@ def _shorten(obj, maxlen=400):
     return {"truncated_case_json": s[:4000]}
 
 
+CASE_LIMIT = float(os.environ.get("VERIF_CASE_LIMIT", "180"))   # seconds; ordinary cases take milliseconds to a few seconds
+
+
+class OperationDidNotReturn(Exception):
+    """The code under test did not come back within CASE_LIMIT seconds (an endless loop, not a slow machine)."""
+
+
+def _on_alarm(signum, frame):
+    raise OperationDidNotReturn("no result after %.0f s" % CASE_LIMIT)
+
+
 def run_one(prop, case, stats, record=True):
-    """Execute a case through the property module; returns Outcome."""
-    out = prop.run_case(case)
+    """Execute a case through the property module; returns Outcome.
+
+    A watchdog (SIGALRM) turns an operation that never returns into an outcome instead of a dead worker: property
+    modules map exceptions of the code under test to violations, and this one is raised inside that code."""
+    import signal
+    old = signal.signal(signal.SIGALRM, _on_alarm)
+    signal.setitimer(signal.ITIMER_REAL, CASE_LIMIT)
+    try:
+        out = prop.run_case(case)
+    except OperationDidNotReturn as e:
+        out = Outcome(Violation("%s:did-not-return" % prop.ID, "the operation did not return: %s" % e), True, ["did-not-return"])
+    finally:
+        signal.setitimer(signal.ITIMER_REAL, 0)
+        signal.signal(signal.SIGALRM, old)
     if record:
         stats.record(case, out)
     return out
